@@ -80,6 +80,16 @@ def run(tape, ctx: Ctx) -> None:
     cancel_delay = [0.0, 0.5, 2.0, 7.0][tape.draw(4, "cancel-delay")]
     if cancel_job_k is not None:
         ctx.fault_configured("cancel")
+    # the caller gives up on one job: the task awaiting EngineJob.results_async() is cancelled by a deadline of its
+    # own (duet.timeout_scope), which is how samplers, collectors and scopes cancel -- not a .cancel() on a future
+    abandon_k = None
+    if streaming and tape.chance(1, 5, "caller-abandons-a-job?"):
+        abandon_k = tape.draw(n_jobs, "abandon-which")
+        if abandon_k == cancel_job_k:
+            abandon_k = None
+    abandon_after = [0.3, 1.5, 5.0][tape.draw(3, "abandon-after")]
+    if abandon_k is not None:
+        ctx.fault_configured("caller-abandons")
     ctx.decide("cfg", n_jobs, n_programs, transport, fault_budget, sorted(kinds), timeout_s, max_retry, len(failing),
                cancel_job_k, cancel_delay, streaming)
 
@@ -95,6 +105,12 @@ def run(tape, ctx: Ctx) -> None:
     with simloop.installed(sim) as loop:
         server = ModelQuantumEngine(sim, ctx, transport, fault_budget, kinds, failing, ())
         server.result_factory = lambda name: _result_any(name, reps)
+        if kinds.get("unary-5xx") and max_retry <= 10 and tape.chance(1, 2, "many-transient-errors?"):
+            # a long history of isolated transient errors on one client (each call sees one or two): what one
+            # call leaves behind in the client must not shorten the patience of the next
+            server.unary_fault_budget = 6 + tape.draw(6, "unary-budget")
+            server.unary_fault_spread = True
+            ctx.probe("l2:many-transient-unary-errors")
         server.connect_stalls = tape.chance(1, 4, "connect-stalls?")
         if tape.chance(1, 3, "slow-jobs?"):
             durations = {f"projects/{PROJECT}/programs/{p}/jobs/{j}": [0.0, 2.5, 12.0, 90.0][tape.draw(4, "job-duration")]
@@ -102,6 +118,11 @@ def run(tape, ctx: Ctx) -> None:
             server.job_duration = lambda name: durations.get(name, 0.0)
             server.cancel_latency = [0.0, 1.5, 4.0][tape.draw(3, "cancel-latency")]
             ctx.fault_configured("job-slow")
+        if abandon_k is not None:
+            # the abandoned job runs long enough to be still running when its caller gives up
+            base_duration = getattr(server, "job_duration", None)
+            ab_name = f"projects/{PROJECT}/programs/{jobs[abandon_k][0]}/jobs/{jobs[abandon_k][1]}"
+            server.job_duration = lambda name, b=base_duration: 60.0 if name == ab_name else (b(name) if b else 0.0)
         outage_len = None
         if tape.chance(1, 6, "unary-outage?"):
             outage_len = [0.25, 1.2, 5.0, 40.0][tape.draw(4, "outage-len")]
@@ -146,7 +167,16 @@ def run(tape, ctx: Ctx) -> None:
                 job = await engine.run_sweep_async(program=circuit, program_id=prog_id, job_id=job_id,
                                                    params=None, repetitions=reps, processor_id="proc")
                 started["n"] += 1
-                results = await job.results_async()
+                if k == abandon_k:
+                    try:
+                        async with duet.timeout_scope(abandon_after):
+                            results = await job.results_async()
+                    except TimeoutError:
+                        ctx.fault("caller-abandons")
+                        outcomes[k] = ("abandoned", None, sim.now)
+                        return
+                else:
+                    results = await job.results_async()
                 outcomes[k] = ("ok", results, sim.now)
             except Violation:
                 raise
@@ -190,6 +220,11 @@ def run(tape, ctx: Ctx) -> None:
                                              f"{sorted(outcomes)}; unary log tail {server.unary_log[-8:]}",
                                 fingerprint=_l2_hang_fp(loop, manager, transport))
         elapsed = sim.now - t_start
+        if abandon_k is not None:
+            # the caller is gone; what its cancellation set in motion on the asyncio side (the execution coroutine
+            # being cancelled, the cancel RPC) still has to run
+            from checks.c20_w3 import _quiesce
+            _quiesce(sim, loop)
         _oracle(ctx, server, jobs, failing, outcomes, n_jobs, reps, elapsed, timeout_s, max_retry, cancel_job_k,
                 t_start, loop_busy, fair_since["t"], outage_len)
         ctx.sim_time += 0.0
@@ -228,6 +263,20 @@ def _oracle(ctx, server, jobs, failing, outcomes, n_jobs, reps, elapsed, timeout
             raise Violation(f"{P}-L2-LOST", f"{job_id}: neither a result nor an error reached the caller")
         kind, val, t_out = outcomes[k]
         sjob0 = server.jobs.get(jname)
+        if kind == "abandoned":
+            # cancellation cancels the remote job: the job was running on the server when its caller gave up
+            # (it runs for a minute), no stream trouble interfered, so a cancel RPC for it has to have arrived
+            ctx.probe("l2:caller-abandoned-a-job")
+            if (sjob0 is not None and (sjob0.terminal_at is None or sjob0.terminal_at > t_out or sjob0.state == "CANCELLED")
+                    and not server.breaks and not server.clean_closes and not server.injected_unary
+                    and not server.open_failures and jname not in server.cancel_requests
+                    and sjob0.created_step >= 0):
+                raise Violation(f"{P}-CANCEL-LOST",
+                                f"{job_id}: its caller stopped waiting for results_async() after "
+                                f"{t_out - t_start:.1f}s (deadline of the awaiting task) while the job was running on "
+                                f"the server (state now {sjob0.state}); no cancel_quantum_job for it was ever sent "
+                                f"(cancel RPCs: {[c.rsplit('/', 1)[-1] for c in server.cancel_requests]})")
+            continue
         if kind == "ok":
             if jname in failing:
                 raise Violation(f"{P}-L2-WRONG-RESULT", f"{job_id} failed on the server but results came back")
@@ -271,7 +320,28 @@ def _oracle(ctx, server, jobs, failing, outcomes, n_jobs, reps, elapsed, timeout
             polls = [v for v in server.unary_times.values() if v[0] == "get_quantum_job" and v[1] == job_id]
             done_polls = [v for v in polls if v[3] is not None and v[4] == "ok"]
             pending_poll = any(v[3] is None for v in polls)
-            if "Reached max retry attempts" in str(e) and outage_len is not None and not server.injected_unary:
+            if "Reached max retry attempts" in str(e) and outage_len is None and server.injected_unary:
+                # injected 5xx replies only: one call gives up when its own consecutive failures outnumber the
+                # back-off steps 0.1, 0.2, 0.4, ... <= max_retry_delay_seconds -- however many failures *other*
+                # calls of the same client have seen before
+                need, d = 1, 0.1
+                while d <= max_retry:
+                    need += 1
+                    d *= 2
+                streak, worst = {}, 0
+                for (nm, tgt, outcome, src) in server.unary_log:
+                    if src.startswith("injected") and outcome in ("InternalServerError", "ServiceUnavailable"):
+                        streak[(nm, tgt)] = streak.get((nm, tgt), 0) + 1
+                        worst = max(worst, streak[(nm, tgt)])
+                    else:
+                        streak[(nm, tgt)] = 0
+                if worst < need:
+                    raise Violation(f"{P}-L2-RETRY-GAVE-UP-EARLY",
+                                    f"{job_id}: 'Reached max retry attempts' although no call saw more than {worst} "
+                                    f"consecutive 5xx replies and max_retry_delay_seconds={max_retry} allows {need - 1} "
+                                    f"retries per call (unary log tail {server.unary_log[-8:]})")
+                ok, why = True, "retry-exhausted"
+            elif "Reached max retry attempts" in str(e) and outage_len is not None and not server.injected_unary:
                 # exponential back-off 0.1, 0.2, 0.4, ... is retried while the delay is <= max_retry_delay_seconds:
                 # giving up is only legitimate if the outage outlasted the delays that had to be tried
                 allowed, d = 0.0, 0.1
